@@ -102,7 +102,10 @@ static void case_layout(const Args &a, long idx, bool wantDesc, CaseResult &res,
             for (unsigned i = 0; i < n; i++) if (R.coin(0.4)) {
                 double off; if (satisfiable) { line = 0; off = 0; }
                 off = (R.coin() ? -1 : 1) * R.rd(3, 30);
-                if (satisfiable) { // witness: left-of nodes have hp - off <= L <= hp - off of right-of nodes, choose L = median and sign by side
+                bool zero = R.coin(0.12);   // offset exactly 0: "negative if left-of", so 0 counts as right-of (what both code sites do)
+                if (zero) off = 0;
+                if (satisfiable && zero) { if (hp(i, dim) < 150) continue; }
+                else if (satisfiable) { // witness: left-of nodes have hp - off <= L <= hp - off of right-of nodes, choose L = median and sign by side
                     double L = 150; off = hp(i, dim) < L ? -std::min(R.rd(3, 30), L - hp(i, dim)) : std::min(R.rd(3, 30), std::max(0.0, hp(i, dim) - L)); if (off == 0) continue; }
                 c.ids.push_back(i); c.off.push_back(off); bc->addShape(i, off);
             }
@@ -172,7 +175,10 @@ static void case_layout(const Args &a, long idx, bool wantDesc, CaseResult &res,
     struct KG { cola::RootCluster *&r; ~KG() { delete r; } } kg{root};
     // exemption groups (overlap mode)
     std::vector<std::vector<unsigned>> exempt; std::set<std::pair<unsigned, unsigned>> exemptPairs;
-    if (overlapMode && !clusters && n >= 3 && R.coin(0.3)) { std::vector<unsigned> g; for (unsigned i = 0; i < n; i++) if (R.coin(0.3)) g.push_back(i); if (g.size() >= 2) { exempt.push_back(g); for (auto x : g) for (auto y : g) if (x < y) exemptPairs.insert({x, y}); } }
+    if (overlapMode && !clusters && n >= 3 && R.coin(0.3)) { int ng = (int)R.ri(1, 3); for (int q = 0; q < ng; q++) { std::vector<unsigned> g; for (unsigned i = 0; i < n; i++) if (R.coin(0.3)) g.push_back(i); if (g.size() >= 2) { exempt.push_back(g); for (auto x : g) for (auto y : g) if (x < y) exemptPairs.insert({x, y}); } } }
+    // history: the option is set once with other groups and then replaced ("setAvoidNodeOverlaps() ... New boolean value"): only the last call counts
+    std::vector<std::vector<unsigned>> decoy;
+    if (overlapMode && !clusters && n >= 3 && R.coin(0.25)) { std::vector<unsigned> g; for (unsigned i = 0; i < n; i++) if (R.coin(0.5)) g.push_back(i); if (g.size() >= 2) decoy.push_back(g); }
 
     int driver = overlapMode ? 1 : (int)R.ri(0, 3);   // 0 run, 1 makeFeasible+run, 2 runOnce x k, 3 majorization
     static const char *dn[] = {"run", "makeFeasible+run", "runOnce*k+run", "majorization.run"};
@@ -198,7 +204,8 @@ static void case_layout(const Args &a, long idx, bool wantDesc, CaseResult &res,
     if (driver != 3) {
         cola::ConstrainedFDLayout alg(rs, es, ideal);
         alg.setConstraints(ccs); alg.setUnsatisfiableConstraintInfo(&ux, &uy);
-        if (avoidOverlaps) alg.setAvoidNodeOverlaps(true, exempt);
+        if (avoidOverlaps && !decoy.empty()) { alg.setAvoidNodeOverlaps(true, decoy); res.count("exemption_groups_replaced_before_layout"); }
+        if (avoidOverlaps) { if (exempt.empty() && !decoy.empty()) alg.setAvoidNodeOverlaps(true); else alg.setAvoidNodeOverlaps(true, exempt); }
         if (neighbourStress) alg.setUseNeighbourStress(true);
         if (root) alg.setClusterHierarchy(root);
         if (driver == 1) { set_stage("makeFeasible"); alg.makeFeasible(); }
